@@ -111,3 +111,18 @@ Definition chain_new_uncertain (left_relative : bool) (left_len right_len : nat)
   if left_relative then
     (if exceeds chain_unc_ge (left_len + right_len) chain_unc_lim then Err W_LongChain else Ok tt)
   else Ok tt.
+
+(* ---- RelativeName::chain_root = self.chain(Name::root()).unwrap(), and
+   UncertainName::chain(suffix) with an absolute suffix: the composed octets.
+   Panic site 14: the unwrap in chain_root. *)
+Definition n_chain_root (w : bytes) : outcome bytes :=
+  match chain_new (length w) 1 with
+  | Ok _ => Ok (w ++ [0%N])
+  | Err _ => Panic 14
+  | Panic p => Panic p
+  | OutOfFuel => OutOfFuel
+  end.
+
+Definition unc_chain (left_absolute : bool) (lw rw : bytes) : outcome bytes :=
+  do _ <- chain_new_uncertain (negb left_absolute) (length lw) (length rw);
+  Ok (if left_absolute then lw else lw ++ rw).
